@@ -68,3 +68,65 @@ package geom
 //@   assert[cardano_root] after "c := math.Cbrt(alpha) + math.Cbrt(beta)" :
 //@       a * (c - b_over_3a) * (c - b_over_3a) * (c - b_over_3a) + b * (c - b_over_3a) * (c - b_over_3a) + old(coeff[1]) * (c - b_over_3a) + d == 0.0
 //@     invariant forall k int :: i <= k && k < len(roots) ==> roots[k] == loopold(roots[k])
+
+// ---------------------------------------------------------------------------
+// spline fitting: end points and joints of the piecewise curve (C05), termination of the recursive split (C01)
+
+// chainOK(cs, a, b): the pieces form one curve from a to b - the first piece starts at a, the last one ends at b,
+// and every piece starts where the previous one ends
+//@ spec chainOK(cs []ctrlp, a P, b P) bool =
+//@   len(cs) >= 1 && cs[0].p0 == a && cs[len(cs)-1].p3 == b
+//@   && (forall i int :: 0 <= i && i < len(cs) - 1 ==> cs[i].p3 == cs[i+1].p0)
+
+// tryfit only moves the two inner control points
+//@ func tryfit
+//@   ensures[ends] result0.p0 == bz0.p0 && result0.p3 == bz0.p3
+
+// the split index lies strictly inside the path
+//@ func ctrlp.maxerr
+//@   requires len(path) == len(t) && len(path) >= 3
+//@   ensures[inside] 1 <= result && result <= len(path) - 2
+//@   loop for(i<len(path)-1)#1
+//@     invariant 1 <= i && i <= len(path) - 1
+//@     invariant i == 1 ? (maxi == 0 - 1 && maxd == 0.0 - 1.0) : (1 <= maxi && maxi <= i - 1 && maxd >= 0.0)
+
+// FitSpline returns a chain from the first to the last point of the path; each recursive call works on a strictly
+// shorter path. That a two-point path is always fitted by a single piece (so that the split index is only asked for
+// on paths of three or more points) needs the triangle inequality for the control polygon: stated as an assumption.
+//@ func FitSpline
+//@   requires len(path) >= 2
+//@   decreases len(path)
+//@   modifies Elems[ctrlp], Elems[float64], Elems[[2]P], alloc
+//@   ensures[chain] chainOK(result, path[0], path[len(path)-1])
+//@   ensures[fresh] allocatedArr(result) && !old(allocatedArr(now(result)))
+//@   ensures[frame] forall t []ctrlp, j int :: old(allocatedArr(t)) ==> t[j] == old(t[j])
+//@   assert[upper] after "upperps := FitSpline" : chainOK(upperps, path[0], path[k])
+//@   assert[lower] after "lowerps := FitSpline" : chainOK(lowerps, path[k], path[len(path)-1])
+//@   assert[upper2] after "lowerps := FitSpline" : chainOK(upperps, path[0], path[k])
+//@   assume[twopoint] after "bz, ok := tryfit(bz, path, barriers)" : len(path) == 2 ==> ok
+
+// MakeSpline: a single piece from a to b
+//@ func MakeSpline
+//@   ensures[ends] result.p0 == a && result.p3 == b
+
+// Shortest is outside the translated subset (generic deque, closures over it); its last lines build the result by
+// walking the predecessor chain from p2 and appending p1 if it is not reached: the result runs from p2 to p1.
+//@ func Shortest
+//@   trusted "end points of the result read off shortest.go:112-122 (early return []P{p2, p1}; path starts at p2, p1 appended unless already last); not verified"
+//@   ensures[ends] len(result) >= 1 && result[0] == p2 && result[len(result)-1] == p1
+//@   ensures[two] p1 != p2 ==> len(result) >= 2
+//@   ensures[alloc] allocatedArr(result)
+
+// MergeRects builds its point lists in memory of its own: no list of points that existed before is written
+//@ func MergeRects
+//@   modifies Elems[P], alloc
+//@   ensures[frame] forall t []P, j int :: old(allocatedArr(t)) ==> t[j] == old(t[j])
+//@   loop range(rects)#1 index a
+//@     invariant !old(allocatedArr(now(lps))) && !old(allocatedArr(now(rps)))
+//@     invariant forall t []P, j int :: old(allocatedArr(t)) ==> t[j] == old(t[j])
+//@   loop for(i<len(lps))#1
+//@     invariant !old(allocatedArr(now(points)))
+//@     invariant forall t []P, j int :: old(allocatedArr(t)) ==> t[j] == old(t[j])
+//@   loop for(j>=0)#1
+//@     invariant !old(allocatedArr(now(points)))
+//@     invariant forall t []P, j int :: old(allocatedArr(t)) ==> t[j] == old(t[j])
